@@ -4,11 +4,14 @@ import os
 import re
 from . import common
 
-LEAN_TARGETS = ["TsrunVerif.Props.C06"]
+LEAN_TARGETS = ["TsrunVerif.Props.C06", "TsrunVerif.Props.C06Compile"]
 THEOREMS = ["TsrunVerif.StepCost." + t for t in [
     "step_unit", "steps_count_work", "deep_script_calls_no_native_stack", "step_unbounded_with_reentrant_native",
-    "native_depth_of_nest", "guard_bounds_stack", "alloc_guarded", "huge_refused"]] + ["TsrunVerif.Gen.reentrant_allowed"]
+    "native_depth_of_nest", "guard_bounds_stack", "alloc_guarded", "huge_refused"]] + ["TsrunVerif.Gen.reentrant_allowed"] + \
+    ["TsrunVerif.Compile." + t for t in ["codeE_targets", "codeS_targets", "exec1_next_shape", "stepH_inCode", "run_never_faults", "compiled_never_faults"]]
 ASSUMPTIONS = [
+    "over M-Compile (C01's compiler and VM model, tied to the code by the instruction-listing correspondence of every C01 run): every jump and catch target the compiler emits lies inside the construct's own code, "
+    "so the program counter and the try stack of the VM stay inside the code for every run, terminating or not, and no step faults (compiled_never_faults); each step of that VM executes exactly one instruction",
     "M-Step abstracts instructions to trampolined ones (cost 1, no native stack) and re-entrant native calls (cost 1 + callback, native depth + 1); which natives re-enter the interpreter is "
     "re-extracted from /repo/src by bin/extract on every run (Gen/Reentrant.lean) and must be contained in the committed, reviewed list",
     "per-step instruction counts and native re-entry depth are read through the cfg(tsrun_verif) counters; absence of aborts is observed by running every risky program in its own process",
